@@ -33,6 +33,7 @@ package host
 //@   modifies mapof(set.healthyMain), mapof(set.healthyBackup), aval
 //@   ensures @added-to-the-tier-of-its-type forall k int :: 0 <= k && k < len(host) && host[k] != nil ==> (host[k].Type == 0 ==> has(set.healthyMain, host[k].Addr)) && (host[k].Type == 1 ==> has(set.healthyBackup, host[k].Addr))
 //@   ensures @tier-values-non-nil (forall a string :: has(set.healthyMain, a) ==> set.healthyMain[a] != nil) && (forall a string :: has(set.healthyBackup, a) ==> set.healthyBackup[a] != nil)
+//@   ensures @cache-describes-the-current-tier (old(cachefresh(set)) || len(host) > 0) ==> cachefresh(set)
 //@   loop 0 invariant set.healthyMain == old(set.healthyMain) && set.healthyBackup == old(set.healthyBackup) && set.healthyMain != nil && set.healthyBackup != nil
 //@   loop 0 invariant (forall a string :: has(set.healthyMain, a) ==> set.healthyMain[a] != nil) && (forall a string :: has(set.healthyBackup, a) ==> set.healthyBackup[a] != nil)
 //@   loop 0 invariant forall k int :: 0 <= k && k <= rangeindex && host[k] != nil ==> (host[k].Type == 0 ==> has(set.healthyMain, host[k].Addr)) && (host[k].Type == 1 ==> has(set.healthyBackup, host[k].Addr))
@@ -45,6 +46,7 @@ package host
 //@   ensures @removed-from-the-tier-of-its-type forall k int :: 0 <= k && k < len(host) && host[k] != nil ==> (host[k].Type == 0 ==> !has(set.healthyMain, host[k].Addr)) && (host[k].Type == 1 ==> !has(set.healthyBackup, host[k].Addr))
 //@   ensures @tier-values-non-nil (forall a string :: has(set.healthyMain, a) ==> set.healthyMain[a] != nil) && (forall a string :: has(set.healthyBackup, a) ==> set.healthyBackup[a] != nil)
 //@   ensures @only-removes (forall a string :: has(set.healthyMain, a) ==> old(has(set.healthyMain, a)) && set.healthyMain[a] == old(set.healthyMain[a])) && (forall a string :: has(set.healthyBackup, a) ==> old(has(set.healthyBackup, a)) && set.healthyBackup[a] == old(set.healthyBackup[a]))
+//@   ensures @cache-describes-the-current-tier (old(cachefresh(set)) || len(host) > 0) ==> cachefresh(set)
 //@   loop 0 invariant set.healthyMain == old(set.healthyMain) && set.healthyBackup == old(set.healthyBackup) && set.healthyMain != nil && set.healthyBackup != nil
 //@   loop 0 invariant (forall a string :: has(set.healthyMain, a) ==> old(has(set.healthyMain, a)) && set.healthyMain[a] == old(set.healthyMain[a])) && (forall a string :: has(set.healthyBackup, a) ==> old(has(set.healthyBackup, a)) && set.healthyBackup[a] == old(set.healthyBackup[a]))
 //@   loop 0 invariant forall k int :: 0 <= k && k <= rangeindex && host[k] != nil ==> (host[k].Type == 0 ==> !has(set.healthyMain, host[k].Addr)) && (host[k].Type == 1 ==> !has(set.healthyBackup, host[k].Addr))
@@ -58,6 +60,7 @@ package host
 //@   ensures @cache-members-non-nil typeis(aval[set.healthyCache.Value], "[]*Host") ==> forall k int :: 0 <= k && k < len(unbox(aval[set.healthyCache.Value], "[]*Host")) ==> unbox(aval[set.healthyCache.Value], "[]*Host")[k] != nil
 //@   ensures @cache-members-come-from-the-preferred-tier forall k int :: 0 <= k && k < len(unbox(aval[set.healthyCache.Value], "[]*Host")) ==> exists a string :: has(tierof(set), a) && tierof(set)[a] == unbox(aval[set.healthyCache.Value], "[]*Host")[k]
 //@   ensures @cache-has-one-entry-per-tier-member len(unbox(aval[set.healthyCache.Value], "[]*Host")) == len(tierof(set))
+//@   ensures @cache-describes-the-current-tier cachefresh(set)
 //@   loop 0 invariant (cap(keys) == 0 || fresh(keys)) && len(keys) == iterated0 && hostMap == tierof(set) && forall i int :: 0 <= i && i < len(keys) ==> has(hostMap, keys[i])
 //@   loop 1 assume forall i int :: 0 <= i && i < len(keys) ==> has(hostMap, keys[i])
 //@   loop 1 invariant len(keys) == len(hostMap)
@@ -75,7 +78,9 @@ package host
 //@   modifies mapof(set.all), mapof(set.healthyMain), mapof(set.healthyBackup), aval, heap("#closed")
 //@   ensures @removed-hosts-leave-the-member-map forall k int :: 0 <= k && k < len(hosts) ==> !has(set.all, hosts[k].Addr)
 //@   ensures @removed-hosts-leave-the-usable-set forall k int :: 0 <= k && k < len(hosts) ==> (hosts[k].Type == 0 ==> !has(set.healthyMain, hosts[k].Addr)) && (hosts[k].Type == 1 ==> !has(set.healthyBackup, hosts[k].Addr))
-//@   loop 0 invariant set.all == old(set.all) && set.healthyMain == old(set.healthyMain) && set.healthyBackup == old(set.healthyBackup) && hostsunchanged(hosts) && forall k int :: 0 <= k && k <= rangeindex ==> !has(set.all, hosts[k].Addr)
+//@   ensures @cache-describes-the-current-tier (old(cachefresh(set)) || len(hosts) > 0) ==> cachefresh(set)
+//@   ensures @tiers-stay-well-formed set.healthyMain != nil && set.healthyBackup != nil && set.all != nil && (forall a string :: has(set.healthyMain, a) ==> set.healthyMain[a] != nil) && (forall a string :: has(set.healthyBackup, a) ==> set.healthyBackup[a] != nil) && (forall a string :: has(set.all, a) ==> old(has(set.all, a)) && set.all[a] == old(set.all[a]))
+//@   loop 0 invariant set.all == old(set.all) && set.healthyMain == old(set.healthyMain) && set.healthyBackup == old(set.healthyBackup) && hostsunchanged(hosts) && (forall k int :: 0 <= k && k <= rangeindex ==> !has(set.all, hosts[k].Addr)) && (forall a string :: has(set.all, a) ==> old(has(set.all, a)) && set.all[a] == old(set.all[a]))
 //@   loop 0 invariant set.all != nil && set.healthyMain != nil && set.healthyBackup != nil && (forall a string :: has(set.healthyMain, a) ==> set.healthyMain[a] != nil) && (forall a string :: has(set.healthyBackup, a) ==> set.healthyBackup[a] != nil)
 
 // ---- host statistics (C06 C15 C20): atomics through the ghost map atomu64 ------------------------------
@@ -131,3 +136,51 @@ package host
 //@   prop C08
 //@   modifies atombool
 //@   ensures @host-of-the-endpoint result != nil && fresh(result) && result.Addr == addr && result.Type == typ
+
+
+// ---- C15: every operation leaves the cached list describing the current preferred tier -----------------
+
+//@ func (*Set).add
+//@   prop C15
+//@   requires setok(set) && forall k int :: 0 <= k && k < len(hosts) ==> hosts[k] != nil
+//@   modifies mapof(set.all), mapof(set.healthyMain), mapof(set.healthyBackup), aval
+//@   ensures @well-formed setok(set)
+//@   ensures @cache-describes-the-current-tier (old(cachefresh(set)) || len(hosts) > 0) ==> cachefresh(set)
+//@   loop 0 invariant setok(set) && set.all == old(set.all) && set.healthyMain == old(set.healthyMain) && set.healthyBackup == old(set.healthyBackup) && (forall k int :: 0 <= k && k < len(hosts) ==> hosts[k] != nil)
+
+//@ func (*Set).ReplaceAll
+//@   prop C15
+//@   requires setok(set) && cachefresh(set) && forall k int :: 0 <= k && k < len(hosts) ==> hosts[k] != nil
+//@   modifies mapof(set.all), mapof(set.healthyMain), mapof(set.healthyBackup), aval, heap("#closed")
+//@   ensures @cache-describes-the-current-tier cachefresh(set)
+//@   loop 0 invariant setok(set) && cachefresh(set) && set.all == old(set.all) && set.healthyMain == old(set.healthyMain) && set.healthyBackup == old(set.healthyBackup) && (forall k int :: 0 <= k && k < len(hosts) ==> hosts[k] != nil)
+
+//@ func (*Set).Add
+//@   prop C15
+//@   requires setok(set) && cachefresh(set) && forall k int :: 0 <= k && k < len(hosts) ==> hosts[k] != nil
+//@   modifies mapof(set.all), mapof(set.healthyMain), mapof(set.healthyBackup), aval
+//@   ensures @cache-describes-the-current-tier cachefresh(set) && setok(set)
+
+//@ func (*Set).Remove
+//@   prop C15
+//@   requires setok(set) && cachefresh(set) && forall k int :: 0 <= k && k < len(hosts) ==> hosts[k] != nil
+//@   modifies mapof(set.all), mapof(set.healthyMain), mapof(set.healthyBackup), aval, heap("#closed")
+//@   ensures @cache-describes-the-current-tier cachefresh(set)
+
+//@ func (*Set).MarkHostHealthy
+//@   prop C15
+//@   requires setok(set) && cachefresh(set) && host != nil && host.Stats != nil
+//@   modifies mapof(set.healthyMain), mapof(set.healthyBackup), aval, atomu64, atombool
+//@   ensures @cache-describes-the-current-tier cachefresh(set)
+
+//@ func (*Set).MarkHostUnhealthy
+//@   prop C15
+//@   requires setok(set) && cachefresh(set) && host != nil && host.Stats != nil
+//@   modifies mapof(set.healthyMain), mapof(set.healthyBackup), aval, atomu64, atombool
+//@   ensures @cache-describes-the-current-tier cachefresh(set)
+
+//@ func NewSet
+//@   prop C15
+//@   requires forall k int :: 0 <= k && k < len(hosts) ==> hosts[k] != nil
+//@   modifies aval
+//@   ensures @well-formed result != nil && fresh(result) && setok(result) && (len(hosts) > 0 ==> cachefresh(result))
